@@ -6,7 +6,8 @@
 //   T <name> <c|g|s|h>                  write_type_line(sanitize_metric_name(name), word)
 //   L <name> <ng> (k v)* <nl> (k v)* <suffix -|0|1|2> <addl -|l|q> <addlval> <value> <unit -|0..16>
 //                                       key_to_parts(Key(name, labels), globals) + write_metric_line
-//   R <unit_on 0|1> <nb> <bound>* <ng> (k v)* <nf> fam*
+//   R <unit_on 0|1> <global 0|1> <nb> <bound>* <no> (<f|p|s> <matcher string>)* <ng> (k v)* <nf> fam*
+//        global = set_buckets(bounds); each override = set_buckets_for_metric(Matcher::Full|Prefix|Suffix, bounds)
 //        fam = <c|g|d> <name> <nd> (<unit> <desc>)* <ns> ser*     ser = <nl> (k v)* <nv> <int>*
 //                                       build_recorder, describe/register/update, render()
 // stdout: one line per case: hex(UTF-8 of the produced text), or `P<hex of panic message>`.
@@ -16,7 +17,7 @@ use metrics_exporter_prometheus::formatting::{
     key_to_parts, sanitize_description, sanitize_label_key, sanitize_label_value, sanitize_metric_name,
     write_help_line, write_metric_line, write_type_line,
 };
-use metrics_exporter_prometheus::PrometheusBuilder;
+use metrics_exporter_prometheus::{Matcher, PrometheusBuilder};
 use std::io::{BufRead, Write};
 
 static METADATA: metrics::Metadata = metrics::Metadata::new("c08", metrics::Level::INFO, None);
@@ -105,11 +106,19 @@ fn run_case(line: &str) -> String {
         }
         "R" => {
             let on = t.n() == 1;
+            let global = t.n() == 1;
             let nb = t.n();
             let bounds: Vec<f64> = (0..nb).map(|_| t.s().parse::<f64>().unwrap()).collect();
+            let no = t.n();
+            let overrides: Vec<Matcher> = (0..no).map(|_| {
+                let k = t.s();
+                let m = t.string();
+                match k { "f" => Matcher::Full(m), "p" => Matcher::Prefix(m), _ => Matcher::Suffix(m) }
+            }).collect();
             let globals = t.pairs();
             let mut b = PrometheusBuilder::new().set_enable_unit_suffix(on);
-            if nb > 0 { b = b.set_buckets(&bounds).unwrap(); }
+            if global { b = b.set_buckets(&bounds).unwrap(); }
+            for m in overrides { b = b.set_buckets_for_metric(m, &bounds).unwrap(); }
             for (k, v) in globals { b = b.add_global_label(k, v); }
             let rec = b.build_recorder();
             let handle = rec.handle();
